@@ -285,6 +285,24 @@ func New(args []string) (*Core, bool) {
 		return nil, false
 	}
 
+	// the configuration file may have been changed after it was loaded
+	// and before the watcher was created: nobody would ever be notified of that change.
+	// Load it again and apply the differences, if any.
+	if p.confWatcher != nil {
+		var newConf *conf.Conf
+		newConf, _, err = conf.Load(p.confPath, nil, p.logger)
+		if err == nil && !reflect.DeepEqual(newConf, loadedConf) {
+			p.Log(logger.Info, "reloading configuration (file changed during startup)")
+
+			err = p.reloadConf(newConf)
+			if err != nil {
+				p.Log(logger.Error, "%s", err)
+				p.closeResources(nil)
+				return nil, false
+			}
+		}
+	}
+
 	go p.run()
 
 	return p, true
